@@ -161,7 +161,7 @@ def _run(case, choices, res, log):
         res.violate(tag + ":not-closed", "connection not closed when handle() returned; %s" % ctx())
 
     reqs = case["reqs"]
-    resps, probs, rest = resp_ref.parse(wire, [{"method": r["method"]} for r in reqs] + [{"method": "GET"}])
+    resps, probs, rest = resp_ref.parse(wire, [{"method": r["method"], "version": r["version"]} for r in reqs] + [{"method": "GET"}])
     finals = [r for r in resps if not r.get("interim")]
     stop = False
     for i, r in enumerate(finals):
